@@ -64,7 +64,7 @@ Inductive case :=
    while others are processed completely); every component is the observation of one request, its
    payload read when ITS StoreDocuments call returns *)
 | CHist (l : list case)
-| CBulk (eager : bool) (B : nat) (now drift fdrift : Z) (body : list N) (tbl : list (list N * docinfo)) (r : impl).
+| CBulk (brk eager : bool) (B : nat) (now drift fdrift : Z) (body : list N) (tbl : list (list N * docinfo)) (r : impl).
 
 Definition stored_eqb (a b : list N * (Z * nat)) : bool :=
   bytes_eqb (fst a) (fst b) && Z.eqb (fst (snd a)) (fst (snd b)) && Nat.eqb (snd (snd a)) (snd (snd b)).
@@ -83,8 +83,8 @@ Definition case_agrees1 (c : case) : bool :=
       | UOk ms' => list_eqb meta_eqb ms' ms
       | _ => false
       end && bytes_eqb (encode_metas ms) payload
-  | CBulk eager B now drift fdrift body tbl r =>
-      match run_body eager B (fun d => option_map d_cls (lookup tbl d)) body with
+  | CBulk brk eager B now drift fdrift body tbl r =>
+      match run_body_t brk eager B (fun d => option_map d_cls (lookup tbl d)) body with
       | Accepted ds =>
           i_ok r && Nat.eqb (i_created r) (length ds)
           && Nat.eqb (i_calls r) (match ds with [] => 0 | _ => 1 end)
@@ -110,8 +110,8 @@ Definition case_spec_ok1 (c : case) : bool :=
   | CMeta m _ un => match un with KOk m' => meta_eqb m m' | _ => false end    (* what was written is read back *)
   | CMetaBytes _ _ => true
   | CMetaPayload _ _ => true
-  | CBulk eager B now drift fdrift body tbl r =>
-      match spec_outcome (fun d => d_cls (info_of tbl d)) eager B body with
+  | CBulk brk eager B now drift fdrift body tbl r =>
+      match (if brk then Rejected else spec_outcome (fun d => d_cls (info_of tbl d)) eager B body) with
       | Accepted ds =>
           i_ok r && Nat.eqb (i_created r) (length ds)
           && Nat.leb (i_calls r) 1
